@@ -9,6 +9,7 @@
 //!        step 0 = after initiate; probe = the measurement of the next update (or the last one used)
 //!   pst ...   same as st, for the stand-alone Point2DKalmanFilter run on point <pt-index> of a vec history
 //!   vdist <id> <step> <bits,..>      Vec2DKalmanFilter::distance on all points (vec histories)
+//!   spec .. hvec .. hist=<ops of point 0>/<ops of point 1>/..   private histories before the vector is assembled
 //!   panic <id> <step> <what>         a call panicked; the history stops
 //!   cost <box|point|vec> <d bits> <0|1> <out bits>
 //! Sub-commands: gen --seed S --n N ; replay --file F (spec lines, `costq <d bits>` lines) ; costs --seed S --n N
@@ -37,6 +38,8 @@ struct Spec {
     rot: bool,
     z0: Vec<Vec<f32>>,
     ops: Vec<Op>,
+    /// hvec only: the private history of every point BEFORE the states are assembled into one vector
+    hist: Vec<Vec<Op>>,
 }
 
 fn bits(v: &[f32]) -> String {
@@ -47,16 +50,21 @@ fn pts(v: &[Vec<f32>]) -> String {
     v.iter().map(|p| bits(p)).collect::<Vec<_>>().join("|")
 }
 
-fn spec_line(s: &Spec) -> String {
-    let ops: Vec<String> = s
-        .ops
-        .iter()
+fn ops_str(ops: &[Op]) -> String {
+    if ops.is_empty() {
+        return "-".to_string();
+    }
+    ops.iter()
         .map(|o| match o {
             Op::P => "P".to_string(),
             Op::U(z) => format!("U:{}", pts(z)),
         })
-        .collect();
-    format!(
+        .collect::<Vec<_>>()
+        .join(";")
+}
+
+fn spec_line(s: &Spec) -> String {
+    let mut l = format!(
         "spec {} {} kind={} wp={} wv={} rot={} z0={} ops={}",
         s.id,
         s.ty,
@@ -65,8 +73,26 @@ fn spec_line(s: &Spec) -> String {
         f32b(s.wv),
         if s.rot { 1 } else { 0 },
         pts(&s.z0),
-        ops.join(";")
-    )
+        ops_str(&s.ops)
+    );
+    if s.ty == "hvec" {
+        l.push_str(&format!(" hist={}", s.hist.iter().map(|h| ops_str(h)).collect::<Vec<_>>().join("/")));
+    }
+    l
+}
+
+fn parse_ops(v: &str) -> Option<Vec<Op>> {
+    let mut ops = vec![];
+    for o in v.split(';').filter(|x| !x.is_empty() && *x != "-") {
+        if o == "P" {
+            ops.push(Op::P);
+        } else if let Some(r) = o.strip_prefix("U:") {
+            ops.push(Op::U(r.split('|').map(parse_pt).collect()));
+        } else {
+            return None;
+        }
+    }
+    Some(ops)
 }
 
 fn parse_pt(s: &str) -> Vec<f32> {
@@ -87,6 +113,7 @@ fn parse_spec(line: &str) -> Option<Spec> {
         rot: false,
         z0: vec![],
         ops: vec![],
+        hist: vec![],
     };
     for t in &toks[3..] {
         let (k, v) = t.split_once('=')?;
@@ -96,15 +123,10 @@ fn parse_spec(line: &str) -> Option<Spec> {
             "wv" => s.wv = f32::from_bits(v.parse().ok()?),
             "rot" => s.rot = v == "1",
             "z0" => s.z0 = v.split('|').map(parse_pt).collect(),
-            "ops" => {
-                for o in v.split(';').filter(|x| !x.is_empty()) {
-                    if o == "P" {
-                        s.ops.push(Op::P);
-                    } else if let Some(r) = o.strip_prefix("U:") {
-                        s.ops.push(Op::U(r.split('|').map(parse_pt).collect()));
-                    } else {
-                        return None;
-                    }
+            "ops" => s.ops = parse_ops(v)?,
+            "hist" => {
+                for h in v.split('/') {
+                    s.hist.push(parse_ops(h)?);
                 }
             }
             _ => {}
@@ -267,7 +289,20 @@ fn run_vec(s: &Spec, out: &mut impl Write) {
             // the vector cost conversion on the same distances, both modes
             let c0 = Vec2DKalmanFilter::calculate_cost(&d, false);
             let c1 = Vec2DKalmanFilter::calculate_cost(&d, true);
-            writeln!(out, "vdist {} {} d={} direct={} inverted={}", s.id, step, bits(&d), bits(&c0), bits(&c1)).unwrap();
+            let p0: Vec<f32> = d.iter().map(|x| Point2DKalmanFilter::calculate_cost(*x, false)).collect();
+            let p1: Vec<f32> = d.iter().map(|x| Point2DKalmanFilter::calculate_cost(*x, true)).collect();
+            writeln!(
+                out,
+                "vdist {} {} d={} direct={} inverted={} pdirect={} pinverted={}",
+                s.id,
+                step,
+                bits(&d),
+                bits(&c0),
+                bits(&c1),
+                bits(&p0),
+                bits(&p1)
+            )
+            .unwrap();
         }
     };
     emit(out, 0, "I", &st);
@@ -294,12 +329,218 @@ fn run_vec(s: &Spec, out: &mut impl Write) {
     }
 }
 
+/// Heterogeneous vector history: every point evolves privately through the stand-alone point filter (`hist`), the
+/// final states are assembled into ONE Vec<state>, and from there every per-point API of Vec2DKalmanFilter
+/// (distance, calculate_cost, predict, update) is applied to the vector (`st` lines) and, side by side, the point
+/// filter to every element (`pst` lines). Step numbers are per point: 0..=L_k private, L_k = the assembled state
+/// (its `st` distance comes from Vec2DKalmanFilter::distance on the whole vector), L_k + j = after joint op j.
+fn run_hvec(s: &Spec, out: &mut impl Write) {
+    let pf = Point2DKalmanFilter::new(s.wp, s.wv);
+    let vf = Vec2DKalmanFilter::new(s.wp, s.wv);
+    let n = s.z0.len();
+    // combined measurement list per point, for the probes
+    let comb: Vec<Vec<Option<Vec<f32>>>> = (0..n)
+        .map(|k| {
+            let mut v: Vec<Option<Vec<f32>>> = s.hist[k]
+                .iter()
+                .map(|o| match o {
+                    Op::P => None,
+                    Op::U(z) => Some(z[0].clone()),
+                })
+                .collect();
+            for o in &s.ops {
+                v.push(match o {
+                    Op::P => None,
+                    Op::U(z) => Some(z[k].clone()),
+                });
+            }
+            v
+        })
+        .collect();
+    let probe = |k: usize, t: usize| -> Vec<f32> {
+        for o in comb[k][t.min(comb[k].len())..].iter().flatten() {
+            return o.clone();
+        }
+        for o in comb[k].iter().rev().flatten() {
+            return o.clone();
+        }
+        s.z0[k].clone()
+    };
+    let line = |out: &mut dyn Write, tag: &str, k: usize, step: usize, op: &str, st: &similari::utils::kalman::KalmanState<4>, pr: &[f32], d: Option<f32>| {
+        let (m, c) = st.verif_raw();
+        writeln!(
+            out,
+            "{} {} {} {} {} mean={} cov={} probe={} dist={}",
+            tag,
+            s.id,
+            step,
+            k,
+            op,
+            bits(&m),
+            bits(&c),
+            bits(pr),
+            d.map(f32b).unwrap_or_else(|| "X".into())
+        )
+        .unwrap();
+    };
+    let mut fin = vec![];
+    for k in 0..n {
+        let p0 = Point2::from([s.z0[k][0], s.z0[k][1]]);
+        let mut st = pf.initiate(&p0);
+        let lk = s.hist[k].len();
+        for t in 0..=lk {
+            if t > 0 {
+                st = match &s.hist[k][t - 1] {
+                    Op::P => pf.predict(&st),
+                    Op::U(z) => pf.update(&st, &Point2::from([z[0][0], z[0][1]])),
+                };
+            }
+            let tag = if t == 0 { "I" } else if matches!(s.hist[k][t - 1], Op::P) { "P" } else { "U" };
+            let pr = probe(k, t);
+            let d = guarded(|| pf.distance(&st, &Point2::from([pr[0], pr[1]])));
+            if t < lk {
+                line(out, "st", k, t, tag, &st, &pr, d);
+            }
+            line(out, "pst", k, t, tag, &st, &pr, d);
+        }
+        fin.push(st);
+    }
+    let mut v = fin.clone();
+    let mut ps = fin;
+    for j in 0..=s.ops.len() {
+        let mut tag = "A"; // assembled
+        if j > 0 {
+            match &s.ops[j - 1] {
+                Op::P => {
+                    tag = "P";
+                    match guarded(|| vf.predict(&v)) {
+                        Some(x) => v = x,
+                        None => {
+                            writeln!(out, "panic {} {} vec-predict", s.id, j).unwrap();
+                            return;
+                        }
+                    }
+                    ps = ps.iter().map(|x| pf.predict(x)).collect();
+                }
+                Op::U(z) => {
+                    tag = "U";
+                    let p: Vec<Point2<f32>> = z.iter().map(|q| Point2::from([q[0], q[1]])).collect();
+                    match guarded(|| vf.update(&v, &p)) {
+                        Some(x) => v = x,
+                        None => {
+                            writeln!(out, "panic {} {} vec-update", s.id, j).unwrap();
+                            return;
+                        }
+                    }
+                    ps = ps.iter().zip(p.iter()).map(|(x, q)| pf.update(x, q)).collect();
+                }
+            }
+        }
+        let probes: Vec<Vec<f32>> = (0..n).map(|k| probe(k, s.hist[k].len() + j)).collect();
+        let pp: Vec<Point2<f32>> = probes.iter().map(|q| Point2::from([q[0], q[1]])).collect();
+        let ds = guarded(|| vf.distance(&v, &pp));
+        for k in 0..n {
+            let step = s.hist[k].len() + j;
+            let op = if j == 0 {
+                // the assembled state keeps the tag of the operation that produced it
+                if s.hist[k].is_empty() { "I" } else if matches!(s.hist[k][s.hist[k].len() - 1], Op::P) { "P" } else { "U" }
+            } else {
+                tag
+            };
+            line(out, "st", k, step, op, &v[k], &probes[k], ds.as_ref().map(|d| d[k]));
+            if j > 0 {
+                let d = guarded(|| pf.distance(&ps[k], &pp[k]));
+                line(out, "pst", k, step, op, &ps[k], &probes[k], d);
+            }
+        }
+        if let Some(d) = ds {
+            let c0 = Vec2DKalmanFilter::calculate_cost(&d, false);
+            let c1 = Vec2DKalmanFilter::calculate_cost(&d, true);
+            let p0: Vec<f32> = d.iter().map(|x| Point2DKalmanFilter::calculate_cost(*x, false)).collect();
+            let p1: Vec<f32> = d.iter().map(|x| Point2DKalmanFilter::calculate_cost(*x, true)).collect();
+            writeln!(
+                out,
+                "vdist {} {} d={} direct={} inverted={} pdirect={} pinverted={}",
+                s.id,
+                j,
+                bits(&d),
+                bits(&c0),
+                bits(&c1),
+                bits(&p0),
+                bits(&p1)
+            )
+            .unwrap();
+        }
+    }
+}
+
+/// points with heterogeneous histories: initiated at different times, occluded (predict-only) for a while,
+/// different numbers of updates; then a few joint operations on the assembled vector
+fn gen_hvec(rng: &mut Rng, id: usize) -> Spec {
+    let (wp, wv) = weights(rng);
+    let npts = 2 + rng.below(5) as usize;
+    let mut z0 = vec![];
+    let mut hist = vec![];
+    let mut cur = vec![];
+    for k in 0..npts {
+        let (mut x, mut y) = (1.0 + rng.unit_f64() * 999.0, 1.0 + rng.unit_f64() * 999.0);
+        let (vx, vy) = ((rng.unit_f64() - 0.5) * 4.0, (rng.unit_f64() - 0.5) * 4.0);
+        z0.push(vec![x as f32, y as f32]);
+        // history class: fresh (initiated just now), young, old, occluded (old + trailing predicts)
+        let class = if k == 0 { rng.below(4) } else { rng.below(4) };
+        let len = match class {
+            0 => 0,
+            1 => 1 + rng.below(4) as usize,
+            _ => 6 + rng.below(50) as usize,
+        };
+        let mut h = vec![];
+        for t in 0..len {
+            if t % 2 == 0 {
+                x = clampf(x + vx, 1.0, 10000.0);
+                y = clampf(y + vy, 1.0, 10000.0);
+                h.push(Op::P);
+            } else {
+                let jx = (rng.unit_f64() - 0.5) * 0.4;
+                let jy = (rng.unit_f64() - 0.5) * 0.4;
+                h.push(Op::U(vec![vec![(x + jx) as f32, (y + jy) as f32]]));
+            }
+        }
+        if class == 3 {
+            for _ in 0..(1 + rng.below(8)) {
+                x = clampf(x + vx, 1.0, 10000.0);
+                y = clampf(y + vy, 1.0, 10000.0);
+                h.push(Op::P);
+            }
+        }
+        hist.push(h);
+        cur.push((x, y, vx, vy));
+    }
+    let mut ops = vec![];
+    for _ in 0..rng.below(6) {
+        if rng.chance(1, 2) {
+            for c in cur.iter_mut() {
+                c.0 = clampf(c.0 + c.2, 1.0, 10000.0);
+                c.1 = clampf(c.1 + c.3, 1.0, 10000.0);
+            }
+            ops.push(Op::P);
+        } else {
+            ops.push(Op::U(cur.iter().map(|c| vec![(c.0 + (rng.unit_f64() - 0.5) * 0.4) as f32, (c.1 + (rng.unit_f64() - 0.5) * 0.4) as f32]).collect()));
+        }
+    }
+    Spec { id, ty: "hvec".into(), kind: "heterogeneous".into(), wp, wv, rot: false, z0, ops, hist }
+}
+
 fn run_spec(s: &Spec, out: &mut impl Write) {
     writeln!(out, "{}", spec_line(s)).unwrap();
     match s.ty.as_str() {
         "box" => run_box(s, out),
         "point" => run_point_one(s, 0, "st", out),
         "vec" => run_vec(s, out),
+        "hvec" => {
+            if s.hist.len() == s.z0.len() && s.ops.iter().all(|o| matches!(o, Op::P) || matches!(o, Op::U(z) if z.len() == s.z0.len())) {
+                run_hvec(s, out)
+            }
+        }
         _ => {}
     }
 }
@@ -461,7 +702,7 @@ fn gen_box(rng: &mut Rng, id: usize, kind_sel: u64, maxlen: usize, coarse: bool)
             }
         }
     }
-    Spec { id, ty: "box".into(), kind: kind.into(), wp, wv, rot, z0: vec![z0], ops }
+    Spec { id, ty: "box".into(), kind: kind.into(), wp, wv, rot, z0: vec![z0], ops, hist: vec![] }
 }
 
 fn gen_points(rng: &mut Rng, id: usize, ty: &str, kind_sel: u64, maxlen: usize, coarse: bool) -> Spec {
@@ -522,7 +763,7 @@ fn gen_points(rng: &mut Rng, id: usize, ty: &str, kind_sel: u64, maxlen: usize, 
             ops.push(Op::U(z));
         }
     }
-    Spec { id, ty: ty.into(), kind: kind.into(), wp, wv, rot: false, z0, ops }
+    Spec { id, ty: ty.into(), kind: kind.into(), wp, wv, rot: false, z0, ops, hist: vec![] }
 }
 
 fn costs(rng: &mut Rng, n: usize, out: &mut impl Write) {
@@ -582,6 +823,7 @@ fn main() {
                 rot: false,
                 z0: vec![vec![-9.0, 4.5, 0.0, 0.4, 5.0]],
                 ops: vec![Op::P, Op::U(vec![vec![8.75, 52.35, 0.0, 0.150_849_15, 100.1]]), Op::P],
+                hist: vec![],
             };
             run_spec(&ut, &mut out);
             id += 1;
@@ -599,7 +841,7 @@ fn main() {
                     ops.push(Op::P);
                     ops.push(Op::U(vec![vec![x as f32, y as f32, 0.0, 0.5, h as f32]]));
                 }
-                let s = Spec { id, ty: "box".into(), kind: "deep-shrink".into(), wp: 1.0 / 20.0, wv: 1.0 / 160.0, rot: false, z0: vec![z0], ops };
+                let s = Spec { id, ty: "box".into(), kind: "deep-shrink".into(), wp: 1.0 / 20.0, wv: 1.0 / 160.0, rot: false, z0: vec![z0], ops, hist: vec![] };
                 run_spec(&s, &mut out);
                 id += 1;
             }
@@ -620,6 +862,12 @@ fn main() {
             }
             // few-bit dyadic weights and measurements keep the exact rationals of the q- histories small
             const QW: [(f32, f32); 4] = [(1.0 / 16.0, 1.0 / 128.0), (1.0 / 32.0, 1.0 / 64.0), (1.0 / 8.0, 1.0 / 8.0), (1.0 / 16.0, 1.0 / 256.0)];
+            // vectors assembled from points with heterogeneous histories
+            for _ in 0..(a.n / 2).max(2) {
+                let s = gen_hvec(&mut rng, id);
+                run_spec(&s, &mut out);
+                id += 1;
+            }
             for k in 0..(a.n / 2).max(1) {
                 let mut s = gen_box(&mut rng, id, k as u64, 5, true);
                 let w = QW[k % 4];
